@@ -29,6 +29,7 @@ type Event struct {
 	InLoop bool
 	Loops  []int // identities of the (summarised) loops the call sits in, innermost last
 	LoopID int   // <loop-continues>: identity of the loop that continues
+	LoopOrd int  // <loop-continues>: ordinal of that loop in its function (source order)
 	St     *State // heap at the time of the call (only kept for functions with effect clauses)
 }
 
@@ -1637,7 +1638,7 @@ func (e *Engine) execFunc(fn *ssa.Function, args []Val, bind []Val, st0 *State, 
 						e.nLoopIDs++
 						li.id = e.nLoopIDs
 					}
-					e.record(Event{Guard: ne.g, Callee: "<loop-continues>", LoopID: loops[ne.to].id, Pos: b.Instrs[len(b.Instrs)-1].Pos()})
+					e.record(Event{Guard: ne.g, Callee: "<loop-continues>", LoopID: loops[ne.to].id, LoopOrd: loops[ne.to].ord, Pos: b.Instrs[len(b.Instrs)-1].Pos()})
 				}
 				if ic, ok := f.invs[ne.to]; ok {
 					e.oblige("inv-preserved", fmt.Sprintf("loop%d", loops[ne.to].ord), ne.g, ic(st), b.Instrs[len(b.Instrs)-1].Pos())
